@@ -30,6 +30,12 @@ def matrix(tier, rnd):
         for point in points:
             # callers blocked in the calls when the cause strikes (the loop is busy), and callers arriving after the end
             add(P.lifecycle_scenario(0, cause, point, "senders", before_api=True, after_api=True))
+    for cause in P.CAUSES:
+        # the application released the terminal and never took it back
+        add(P.lifecycle_scenario(0, cause, "released", "senders", before_api=True, after_api=True))
+    for cause in ("quit", "kill", "cancel", "interrupt"):
+        # the input is a plain reader parked in Read (it cannot be cancelled): nobody may wait for it
+        add(P.lifecycle_scenario(0, cause, "idle", "input", after_api=True))
     # the context is already cancelled when Run is called (callers before and after)
     add(P.lifecycle_scenario(0, "cancel", "before-run", "none", before_api=True, after_api=True))
     add(P.lifecycle_scenario(0, "cancel", "before-run", "none", after_api=True, waits_before_run=3))
